@@ -56,6 +56,8 @@ def role(node, params):
 
 
 def check(prog, rep):
+    from . import pitfalls as _pit
+    rep.section(_pit.report, prog, rep, 'R11.P', ['src/optyx/core/vectors.py', 'src/optyx/core/matrices.py'], ('P1', 'P3'))
     rep.section(_operators, prog, rep)
     rep.section(_truncation, prog, rep)
     rep.section(_index_maps, prog, rep)
